@@ -837,6 +837,10 @@ def run(ctx):
     run_e2e_create(ctx, cr, norm)
     run_e2e_reject(ctx, CORPUS_TEXT + texts[:ctx.n(30, 300)])
     link_with_unparseable_trackers(ctx)
+    # end to end with create (X5, c10_created_bytes_link_back): real `create --link`, then `link` of the written file, against
+    # the extracted composition build -> encode -> loader + infohash -> link_cmd and against the command line itself
+    from props import e2e_create
+    e2e_create.run_link(ctx, ctx.n(150, 2500))
     return finish(ctx)
 
 
@@ -867,16 +871,22 @@ def finish(ctx):
              "(domain, IPv4, bracketed IPv6) in url-crate normal form; index lists with duplicates up to 2^64-1. parse cases: valid and "
              "damaged topics (length, non-hex, escaped digits, other urn, key variants), scheme/whitespace/fragment/empty-segment "
              "variants, bad typed values. tracker cases: announce/tier lists with repeats. E2E: `torrent link`, `create --link`, "
-             "`from-link` rejections. A case is distinct/non-trivial by (set of reserved-character classes present, #trackers, #peers, "
+             "`from-link` rejections; end to end with create (counts x5_*): C05's generator of `create` command lines - real "
+             "`create --link --output`, then `link [--peer] [--select-only]` of the written file, compared with the extracted "
+             "composition build -> encode -> loader + infohash -> link_cmd (and the lossy path) and with the command line itself. "
+             "A case is distinct/non-trivial by (set of reserved-character classes present, #trackers, #peers, "
              "indices present) resp. (oracle class, verdict, prefix, %/+/# present) resp. (list sizes before/after de-duplication).",
         trusted_base=["Coq 8.16.1 kernel (coqc), vm_compute for the 256-entry safe-set table", "tools/rs2v.py + tools/rs2v_magnet.py (GenMagnet)",
-                      "extraction with ExtrOcamlBasic + runner/driver.d/magnet.ml", "Rust hooks magnet_print / magnet_parse / metainfo_trackers / "
+                      "extraction with ExtrOcamlBasic + runner/driver.d/magnet.ml, runner/driver.d/endtoendshow.ml", "Rust hooks magnet_print / magnet_parse / metainfo_trackers / "
                       "hostport_parse + harness line protocol", "Python oracle in tools/props/c10.py (urllib.parse, hashlib, lib.bdecode_strict)"],
     )
 
 
 def replay(ctx, path):
     case = json.load(open(path))["case"]
+    if case.get("e2e"):
+        from props import e2e_create
+        return e2e_create.replay(ctx, case)
     ctx.need_rust(); ctx.need_runner()
     kind = case.get("kind")
     if kind == "print":
